@@ -408,6 +408,11 @@ fn submit_spec(rng: &mut Rng, plan: &RunPlan, existing: &[u32], into_open: bool)
                 props: task_props(rng, plan),
             });
         }
+        // a dependent listed before its dependency (the server must reject the submit)
+        if tasks.len() > 1 && rng.chance(1, 25) {
+            let i = rng.usize_below(tasks.len() - 1);
+            tasks.swap(i, i + 1);
+        }
         // rare duplicate id inside the submit / clash with an existing id
         if tasks.len() > 1 && rng.chance(1, 40) {
             let id0 = tasks[0].id;
